@@ -112,7 +112,7 @@ func (h *signedHist) step(variant string) {
 	var fresh *pkcs7.PKCS7
 	pi := mon.Try(func() {
 		var err error
-		fresh, err = pkcs7.Parse(b.der)
+		fresh, err = parseRx(b.der)
 		if err != nil {
 			want = err
 			return
@@ -202,7 +202,7 @@ func signedHistory(x *mon.Ctx) {
 			continue
 		}
 		var p *pkcs7.PKCS7
-		if !c.Call("Parse", func() { p, err = pkcs7.Parse(b.der) }) || err != nil {
+		if !c.Call("Parse", func() { p, err = parseRx(b.der) }) || err != nil {
 			if err != nil {
 				c.Fail("reject", "honest SignedData fails to parse: %v; message: %v", err, s)
 			}
@@ -293,7 +293,7 @@ func envHistory(x *mon.Ctx) {
 			continue
 		}
 		var p *pkcs7.PKCS7
-		if !c.Call("Parse", func() { p, err = pkcs7.Parse(b.der) }) || err != nil {
+		if !c.Call("Parse", func() { p, err = parseRx(b.der) }) || err != nil {
 			if err != nil {
 				c.Fail("reject", "honest message fails to parse: %v; %v", err, s)
 			}
@@ -614,7 +614,7 @@ func builderSigned(c *mon.Case, w *world, s signedSpec) {
 	}
 	// attribute removal
 	count := func(der []byte) (auth, unauth int, ok bool) {
-		p, err := pkcs7.Parse(der)
+		p, err := parseRx(der)
 		if err != nil {
 			return 0, 0, false
 		}
